@@ -101,3 +101,12 @@ Lemma stream_example :
   map (fun c => (e_ty (cb_msg c), e_code (cb_msg c), e_off (cb_msg c))) (errs_of effs) = [(1, 3, [1; 2; 3; 4])] /\
   map rp_id (replies_of effs) = [7].
 Proof. vm_compute. repeat split; reflexivity. Qed.
+
+(** non-vacuity of [Props.reply_iff_echo_request_literal]: the example request is a decodable
+    raw packet (bytes < 256, the raw view is the whole buffer) and reads as an echo request
+    both ways *)
+Lemma literal_premises_hold :
+  bytes_ok echo_req_good = true /\ required_size_raw echo_req_good = Ok (blen echo_req_good) /\
+  spec_is_echo_request echo_req_good = true /\ spec_is_echo_request err_du = false /\
+  bytes_ok err_du = true /\ required_size_raw err_du = Ok (blen err_du).
+Proof. vm_compute. repeat split; reflexivity. Qed.
